@@ -362,9 +362,13 @@ func (f *Frame) loopHead(li *loopInfo, pc string, st *State, order []*ssa.BasicB
 	for _, k := range comps {
 		srt, ok := vc.compSorts[k]
 		if !ok {
-			srt = dry.vc.compSorts[k]
+			srt = vc.prog.compSortHint(vc, k) // declares the sorts it mentions in this VC
 			if srt == "" {
-				srt = vc.prog.compSortHint(vc, k)
+				srt = dry.vc.compSorts[k]
+				if t := dry.vc.compTypes[k]; t != nil {
+					vc.sortOf(t)
+					vc.compTypes[k] = t
+				}
 			}
 			if srt == "" {
 				continue
@@ -382,6 +386,16 @@ func (f *Frame) loopHead(li *loopInfo, pc string, st *State, order []*ssa.BasicB
 		na := vc.freshConst("alloc", "Int")
 		vc.assert(fmt.Sprintf("(>= %s %s)", na, st.alloc))
 		h.alloc = na
+	}
+	poolTouched := false
+	for _, k := range havocked {
+		if k == poolBufsComp || k == poolArraysComp || k == bufArrComp {
+			poolTouched = true
+		}
+	}
+	if poolTouched {
+		bufs, arrays, ba := vc.poolComps(h)
+		vc.poolWF(bufs, arrays, ba, h.alloc)
 	}
 	for _, k := range havocked {
 		vc.assertCompWF(h.heap[k], k, h.alloc)
@@ -483,6 +497,9 @@ func (f *Frame) applyHintCon(con *Contract, h Hint, pc string, st *State, where 
 		if !ok || !f.vc.prog.prelude.isLemma(call.Fn) {
 			unsup("'use' hint must be a lemma or unfolding instance: %s", h.Src)
 		}
+		f.vc.assume(pc, t)
+	case "assume":
+		// an unchecked assumption: listed in the evidence (contract.go appends it to Assumes)
 		f.vc.assume(pc, t)
 	case "assert":
 		f.vc.oblige("assert", fmt.Sprintf("%s#assert:%s", f.obFn(), where), pc, t, token.Position{Filename: con.File, Line: h.Line}, h.Src)
@@ -788,6 +805,11 @@ func (f *Frame) nilCheck(ref, pc string, pos token.Pos) {
 		return
 	}
 	if f.vc.nonNil[ref] || f.vc.nonNil[ref+"@"+pc] {
+		return
+	}
+	if f.root().con != nil && f.root().con.MayPanic {
+		f.vc.assume(pc, fmt.Sprintf("(not (= %s 0))", ref))
+		f.vc.nonNil[ref+"@"+pc] = true
 		return
 	}
 	f.vc.oblige("safe", fmt.Sprintf("%s#safe:nil@%s", f.vc.fnName, f.site(pos)), pc, fmt.Sprintf("(not (= %s 0))", ref), f.pos(pos), "nil pointer dereference")
@@ -1128,6 +1150,19 @@ func (f *Frame) safe(pc, kind string, pos token.Pos, goal, desc string) {
 	if f.dry {
 		return
 	}
+	if f.root().con != nil && f.root().con.MayPanic {
+		// the panicking execution does not return normally (recover is refused in this mode)
+		f.vc.assume(pc, goal)
+		return
+	}
+	f.vc.oblige("safe", fmt.Sprintf("%s#safe:%s@%s", f.vc.fnName, kind, f.site(pos)), pc, goal, f.pos(pos), desc)
+}
+
+// must: like safe, but not a panic condition: stays an obligation under may_panic
+func (f *Frame) must(pc, kind string, pos token.Pos, goal, desc string) {
+	if f.dry {
+		return
+	}
 	f.vc.oblige("safe", fmt.Sprintf("%s#safe:%s@%s", f.vc.fnName, kind, f.site(pos)), pc, goal, f.pos(pos), desc)
 }
 
@@ -1349,11 +1384,14 @@ func (f *Frame) sliceOp(t *ssa.Slice, pc string, st *State) {
 		if t.High != nil {
 			hi = f.val(t.High).T
 		}
+		mx := fmt.Sprintf("(cap %s)", x.T)
 		if t.Max != nil {
-			unsup("3-index slice")
+			mx = f.val(t.Max).T
+			f.safe(pc, "slice", t.Pos(), fmt.Sprintf("(and (<= 0 %s) (<= %s %s) (<= %s %s) (<= %s (cap %s)))", lo, lo, hi, hi, mx, mx, x.T), "slice bounds in range")
+		} else {
+			f.safe(pc, "slice", t.Pos(), fmt.Sprintf("(and (<= 0 %s) (<= %s %s) (<= %s (cap %s)))", lo, lo, hi, hi, x.T), "slice bounds in range")
 		}
-		f.safe(pc, "slice", t.Pos(), fmt.Sprintf("(and (<= 0 %s) (<= %s %s) (<= %s (cap %s)))", lo, lo, hi, hi, x.T), "slice bounds in range")
-		f.setVal(t, fmt.Sprintf("(mk_slice (arr %s) (+ (off %s) %s) (- %s %s) (- (cap %s) %s))", x.T, x.T, lo, hi, lo, x.T, lo))
+		f.setVal(t, fmt.Sprintf("(mk_slice (arr %s) (+ (off %s) %s) (- %s %s) (- %s %s))", x.T, x.T, lo, hi, lo, mx, lo))
 	case *types.Basic: // string
 		hi := fmt.Sprintf("(slen %s)", x.T)
 		if t.High != nil {
@@ -1824,8 +1862,18 @@ func (f *Frame) frameFormula(s *State, comp string) string {
 	if _, any := r.mods["*"]; any {
 		return ""
 	}
+	if containsStr(r.mods[comp], "ALL") {
+		return ""
+	}
+	if containsStr(r.mods[comp], "POOL") {
+		return fmt.Sprintf("(forall ((r Int)) (! (=> (and (<= 0 r) (< r %s)) (= (select %s r) (select %s r))) :pattern ((select %s r))))", r.entry.alloc, now, init, now)
+	}
 	var excl []string
 	for _, m := range r.mods[comp] {
+		if m == "POOLED" {
+			excl = append(excl, not(vc.poolArrayAt(r.entry, "r")))
+			continue
+		}
 		excl = append(excl, fmt.Sprintf("(not (= r %s))", m))
 	}
 	guard := and(append([]string{"(<= 0 r)", fmt.Sprintf("(< r %s)", r.entry.alloc)}, excl...)...)
